@@ -762,5 +762,7 @@ def replay(payload):
         r = run_at(cut)
         if r is not None:
             r["cuts_tried"] = len(seen)
+            # judged through the public readers (parse_msg / parse_all) against the stored messages: the statement itself
+            r["statement_level"] = bool(r.get("confirmed"))
             return r
     return {"confirmed": False, "observed": "as the definition prescribes at %d truncation offsets" % len(seen), "cut": cut0}
